@@ -91,6 +91,7 @@ func checkC01(c *Ctx) {
 	c.checkReflectUse(br)
 	c.checkPrototypes(br)
 	c.checkReadRetry()
+	c.checkSetupState()
 
 	// ---- C01-TA
 	for _, f := range c.zygoFuncs() {
